@@ -940,6 +940,10 @@ func main() {
 		fmt.Println("reference self-test failed:", err)
 		R.Fail("selftest", "misc", nil, nil)
 	}
+	if err := mc.ReductionSelfTest(); err != nil {
+		fmt.Println("alphabet generator self-test failed:", err)
+		R.Fail("selftest", "misc", nil, nil)
+	}
 	R.Rule("states = distinct scalar values / byte strings visited; a transition is one operation application under one alias (pointer) pattern, run on the implementation and the math/big model; non-trivial = steered boundary pairs, non-canonical strings, aliased vectors, half-order boundary values")
 	R.Assume("math/big and the Go toolchain are correct; the reference model in /verif/ref")
 	R.Config("amd64 default build")
